@@ -69,7 +69,7 @@ def run(eng, p):
     reg_coord = region(eng, "C03-mgm2-coordinated-gain", mgm2 and not inst.vcosts)
     eng.notes["outcome"] = outcome(r)
     if r["exc"]:
-        eng.fail("exception %s: %s" % (type(r["exc"][0]).__name__, r["exc"][0]), regions=reg_vc, detail=r["exc"][1])
+        eng.fail("exception %s: %s" % (type(r["exc"][0]).__name__, r["exc"][0]), detail=r["exc"][1])
         return
     states = global_states(r)
     cmp = F.le if inst.mode == "min" else F.ge
@@ -78,7 +78,7 @@ def run(eng, p):
     for k in range(len(states) - 1):
         a, b = states[k], states[k + 1]
         if any(v not in inst.domains[n] for n, v in list(a.items()) + list(b.items())):
-            eng.fail("value outside the domain", regions=reg_vc, detail=str((a, b)))
+            eng.fail("value outside the domain", detail=str((a, b)))
             return
         movers = [n for n in a if a[n] != b[n]]
         # a committed partner may keep its own value: the cycle is coordinated as soon as one mover was committed
@@ -96,5 +96,5 @@ def run(eng, p):
     eng.prove(F.and_(mono_coord) if mono_coord else True,
               "global cost got worse in a cycle containing a coordinated MGM2 move", regions=reg_vc + reg_coord,
               detail=str(states))
-    eng.prove(excl, "two constraint-sharing variables changed in the same cycle without being MGM2 partners", regions=reg_vc,
+    eng.prove(excl, "two constraint-sharing variables changed in the same cycle without being MGM2 partners",
               detail=str((bad_pair, states)))
